@@ -28,6 +28,11 @@ func raceJobs() []c11Job {
 			jobs = append(jobs, c11Job{s, []string{"7.4", "5.6", "7.2"}[i%3]})
 		}
 	}
+	// deep nesting and long chains: tables and buffers that grow with the depth of a tree grow for the first time while
+	// other goroutines use them
+	for i, s := range corpus.DeepPrograms(24) {
+		jobs = append(jobs, c11Job{s, []string{"7.4", "5.6"}[i%2]})
+	}
 	return jobs
 }
 
